@@ -52,3 +52,63 @@ Definition exit_failure (cs : list check) : bool := existsb (fun c => negb (pass
 (* ... and what it would be if the verdicts were collected in any other order *)
 Definition exit_failure_in_order (cs : list check) (order : list nat) : bool :=
   existsb (fun i => negb (passed (nth i cs default_check))) order.
+
+(* ---- TestLauncher::execute (tfel-check/src/TestLauncher.cxx): the verdict of one check ----
+   gsuccess = true; an unmet requirement: every command is reported as skipped, return gsuccess (true);
+   loop over ALL commands (a failed command does not stop the loop): on failure gsuccess = false unless
+   discard_commands_failure and there are comparisons; then loop over ALL comparisons (run even when a command failed):
+   gsuccess = (gsuccess == false ? false : success). *)
+Fixpoint run_commands (disc tests_empty : bool) (cmds : list bool) (g : bool) : bool * list bool :=
+  match cmds with
+  | [] => (g, [])
+  | ok :: r => let g' := if ok then g else if negb disc then false else if tests_empty then false else g in
+               let (g2, out) := run_commands disc tests_empty r g' in (g2, ok :: out)
+  end.
+Fixpoint run_tests (tests : list bool) (g : bool) : bool * list bool :=
+  match tests with
+  | [] => (g, [])
+  | ok :: r => let g' := if negb g then false else ok in
+               let (g2, out) := run_tests r g' in (g2, ok :: out)
+  end.
+Definition launcher_execute (d : cdef) : result :=
+  if req_ok d then
+    let (g1, cl) := run_commands (discard d) (no_tests d) (cmd_ok d) true in
+    let (g2, tl) := run_tests (test_ok d) g1 in mkRes g2 cl tl 0
+  else mkRes true [] [] (length (cmd_ok d)).
+
+(* ---- the pool run with recorded results: the task of check i returns launcher_execute of ITS OWN definition (a
+   TestLauncher, its Comparison objects, its PCLogger and its output stream are private to the task) ---- *)
+Inductive revent := RStart (i : nat) | RAppend (i : nat) | RFinish (i : nat) (r : result).
+Definition erase (e : revent) : event :=
+  match e with RStart i => Start i | RAppend i => Append i | RFinish i _ => Finish i end.
+Record rstate := mkR { core : state; recorded : list (nat * result) }.
+Definition rinit : rstate := mkR init [].
+Definition default_def : cdef := mkDef true false [] [].
+Definition result_eq_dec : forall a b : result, {a = b} + {a <> b}.
+Proof. repeat decide equality. Defined.
+
+Definition rstep_fn (cs : list check) (ds : list cdef) (s : rstate) (e : revent) : option rstate :=
+  match step_fn cs (core s) (erase e) with
+  | None => None
+  | Some c' =>
+      match e with
+      | RFinish i r => if result_eq_dec r (launcher_execute (nth i ds default_def))
+                       then Some (mkR c' (recorded s ++ [(i, r)])) else None
+      | _ => Some (mkR c' (recorded s))
+      end
+  end.
+Definition rstep cs ds s e s' : Prop := rstep_fn cs ds s e = Some s'.
+Inductive rsteps (cs : list check) (ds : list cdef) : rstate -> list revent -> rstate -> Prop :=
+| rsteps_nil : forall s, rsteps cs ds s [] s
+| rsteps_cons : forall s e s1 tr s2, rstep cs ds s e s1 -> rsteps cs ds s1 tr s2 -> rsteps cs ds s (e :: tr) s2.
+Fixpoint rrun cs ds (s : rstate) (tr : list revent) : option rstate :=
+  match tr with
+  | [] => Some s
+  | e :: r => match rstep_fn cs ds s e with Some s1 => rrun cs ds s1 r | None => None end
+  end.
+Definition raccepts cs ds tr : bool := match rrun cs ds rinit tr with Some _ => true | None => false end.
+(* the exit status computed from the recorded results (the futures hold what the tasks returned) *)
+Definition exit_from_recorded (rec : list (nat * result)) : bool := existsb (fun p => negb (r_verdict (snd p))) rec.
+(* the trace of the sequential run *)
+Definition sequential_trace (ds : list cdef) : list revent :=
+  flat_map (fun i => [RStart i; RAppend i; RFinish i (launcher_execute (nth i ds default_def))]) (seq 0 (length ds)).
